@@ -29,6 +29,7 @@ func c05Run(r *core.Run) {
 	fk := world.NewKey(t)
 	origPck, origRoot := w.PckCrl, w.RootCrl
 	origRootInQE := w.RootInQE
+	origTcbSigner, origQESigner, origRootInTcb, origPool := w.TcbSignerInTcb, w.TcbSignerInQE, w.RootInTcb, w.Pool
 	raw := w.Quote.Bytes()
 	r.Eventf("world %s", w.Describe())
 
@@ -37,6 +38,7 @@ func c05Run(r *core.Run) {
 	futureDated := t.Bool()
 	reset := func() {
 		w.PckCrl, w.RootCrl, w.RootInQE = origPck, origRoot, origRootInQE
+		w.TcbSignerInTcb, w.TcbSignerInQE, w.RootInTcb, w.Pool = origTcbSigner, origQESigner, origRootInTcb, origPool
 		if futureDated {
 			w.PckCrl.RevokedAt, w.RootCrl.RevokedAt = w.Epoch.AddDate(0, 0, 18), w.Epoch.AddDate(0, 0, 19)
 		}
@@ -59,18 +61,16 @@ func c05Run(r *core.Run) {
 	add("revoked:intermediate-in-rootcrl", rej, "the intermediate CA's serial is listed in the Root CA CRL", func() { w.RootCrl.Revoked = append(w.RootCrl.Revoked, inter); w.Publish() })
 	add("revoked:tcbinfo-signer-in-rootcrl", rej, "the TCB-Info signing certificate's serial is listed in the Root CA CRL", func() { w.RootCrl.Revoked = append(w.RootCrl.Revoked, sTcb); w.Publish() })
 	add("revoked:qeidentity-signer-in-rootcrl", rej, "the QE-Identity signing certificate's serial is listed in the Root CA CRL", func() { w.RootCrl.Revoked = append(w.RootCrl.Revoked, sQE); w.Publish() })
-	for _, pos := range []string{"first", "middle", "last"} {
+	for _, pos := range []string{"first", "middle", "last", "last-but-one", "last-but-two"} {
 		pos := pos
 		mk := func(target *big.Int) []*big.Int {
-			n := 1000
-			if !r.Thorough() {
-				n = 200
-			}
+			// list lengths around the sizes at which an implementation might change strategy
+			n := []int{3, 17, 200, 255, 1000, 1023, 1024, 1025, 1026, 2049, 4098}[t.Draw(11)]
 			l := make([]*big.Int, 0, n+1)
 			for i := 0; i < n; i++ {
 				l = append(l, world.RandSerial(t))
 			}
-			at := map[string]int{"first": 0, "middle": n / 2, "last": n}[pos]
+			at := map[string]int{"first": 0, "middle": n / 2, "last": n, "last-but-one": n - 1, "last-but-two": n - 2}[pos]
 			l = append(l[:at], append([]*big.Int{target}, l[at:]...)...)
 			return l
 		}
@@ -134,6 +134,22 @@ func c05Run(r *core.Run) {
 	add("signer:rootcrl-by-foreign-key", rej, "the Root CA CRL is not signed by the root", func() { w.PCS.ByURL[rootURL].Body = world.MakeCRL(w.RootCrl, w.A.Root, fk) })
 	add("signer:rootcrl-by-platform-ca-key", rej, "the Root CA CRL is signed by the intermediate's key", func() { w.PCS.ByURL[rootURL].Body = world.MakeCRL(w.RootCrl, w.A.Root, w.A.PlatKey) })
 	add("signer:rootcrl-is-the-pck-crl", rej, "the Root CRL endpoint serves the PCK CRL", func() { w.PCS.ByURL[rootURL].Body = w.PckCrlDER })
+	// two trusted roots: the quote's chain is under A, the collateral and the only obtainable Root CA CRL are
+	// another trusted hierarchy's.  No Root CA CRL signed by the chain's root was obtained.
+	add("two-roots:rootcrl-and-collateral-of-the-other-trusted-root", rej, "the pool trusts A and B; the chain is under A, but the Root CA CRL (and the collateral) are B's: no Root CA CRL signed by the chain's root was obtained", func() {
+		B := world.NewPKI(t, "B", w.Epoch, w.A)
+		if t.Bool() {
+			B.RootSpec.SKI, B.TcbSpec.SKI = t.Bytes(20), t.Bytes(20)
+			B.Rebuild()
+		}
+		w.TcbSignerInTcb, w.TcbSignerInQE, w.RootInTcb, w.RootInQE = B.Tcb, B.Tcb, B.Root, B.Root
+		w.Pool = world.Pool(w.A.Root, B.Root)
+		w.Publish()
+		for u := range w.PCS.ByURL {
+			w.PCS.ByURL[u].Body = world.MakeCRL(w.RootCrl, B.Root, B.RootKey)
+		}
+		r.Probe("two_trusted_roots")
+	})
 	// --- endpoint outcomes
 	for _, which := range []string{"pckcrl", "rootcrl"} {
 		which := which
@@ -236,7 +252,7 @@ func c05Run(r *core.Run) {
 		r.Count("control_failed", 1)
 		r.Eventf("control failed: %s", errClass(o))
 	}
-	r.Sample("world %s with two TCB-signing certificates: %d revocation cases (serial sets incl. near-misses and up to 1000 entries, CRL signers, endpoint outcomes, several distribution points), e.g. revoked:qeidentity-signer-in-rootcrl rejected", w.Describe(), len(cases))
+	r.Sample("world %s with two TCB-signing certificates: %d revocation cases (serial sets incl. near-misses and up to 4099 entries, CRL signers, endpoint outcomes, several distribution points), e.g. revoked:qeidentity-signer-in-rootcrl rejected", w.Describe(), len(cases))
 }
 
 func classOfC05(name string) string {
@@ -252,7 +268,7 @@ func init() {
 	register(&core.Check{
 		ID:    "C05",
 		Level: "exploration",
-		Rule: "per run one seeded honest world (TCB Info and QE Identity signed by two different TCB-signing certificates; in a quarter of the worlds certificates name their issuer not by key identifier but not at all / by issuer+serial / by all three fields) verified with revocation checking under ~55 CRL situations: leaf / intermediate / each collateral signer revoked (alone, first/middle/last of up to 1000 entries), 10 near-miss serials, serial in the other CRL, CRLs signed by a foreign key / the root key / the other CA / in the wrong name / swapped CRLs, endpoint error / garbage / empty / truncated / PEM / bit-flipped signature or content / missing route for both CRLs, several Root-CRL distribution points (failing prefix then good, all failing, none, good-first); plus revocation-without-collateral. " +
+		Rule: "per run one seeded honest world (TCB Info and QE Identity signed by two different TCB-signing certificates; in a quarter of the worlds certificates name their issuer not by key identifier but not at all / by issuer+serial / by all three fields) verified with revocation checking under ~55 CRL situations: leaf / intermediate / each collateral signer revoked (alone, first / middle / last / last but one / last but two of 3..4099 entries in no particular order), 10 near-miss serials, serial in the other CRL, CRLs signed by a foreign key / the root key / the other CA / in the wrong name / swapped CRLs, endpoint error / garbage / empty / truncated / PEM / bit-flipped signature or content / missing route for both CRLs, several Root-CRL distribution points (failing prefix then good, all failing, none, good-first); a pool of two trusted hierarchies with the chain under one and CRL + collateral of the other; plus revocation-without-collateral. " +
 			"distinct = case name; every case but the near-miss / other-CRL / dp-prefix ones must be rejected",
 		Assumptions: []string{
 			"a serial listed in the other issuer's CRL is don't-care; the PCK-CRL issuer-chain header is not part of the claim",
@@ -266,6 +282,6 @@ func init() {
 			return 96
 		},
 		Run:       c05Run,
-		MustProbe: []string{"leaf_serial_listed_in_authentic_pck_crl", "qe_signer_revoked_separately", "revocation_without_collateral"},
+		MustProbe: []string{"leaf_serial_listed_in_authentic_pck_crl", "qe_signer_revoked_separately", "revocation_without_collateral", "two_trusted_roots"},
 	})
 }
